@@ -82,9 +82,11 @@ def peer(*items, arr=None):
 R = lambda i, e=False: ('reply', i, e)
 B = lambda i: ('bad', i, False)
 
-def directed(rng):
+def directed(rng, probes=False):
     out = []
     def add(name, opts, steps):
+        if not probes and any(st.get('a') == 'probe' for st in steps):
+            return      # in-operation probes issue untagged traffic of their own: for the channel-discipline judge only
         o = dict(recvUnblocks=False, callback=False); o.update(opts)
         out.append(dict(name='dir-' + name, seed=rng.randrange(1 << 30), opts=o, steps=steps))
     for v in range(3):
@@ -128,6 +130,9 @@ def directed(rng):
         add('id-interleave-sendfail-%d' % v, {}, [op('o1', 'batch', [False, False]), op('o2'), G('cli.req.lock', 'o1'), G('cli.req.lock', 'o2'), G('cli.req.lock', 'o1'),
                                                   G('cli.send.lock', 'o2'), dict(a='sendfail'), G('cli.send.lock', 'o1'), dict(a='sendheal'), op('o3'), D,
                                                   op('o4', 'batch', [False, True, False]), D, peer(R(2, e)), D, peer(R(4), R(5), R(6), R(3), R(1)), D])
+        # two callback handlers return together: their replies go out one after the other, never at once (explicit in-operation probe)
+        add('cb-two-replies-%d' % v, {'callback': True}, [peer(('call', 7, False)), peer(('call', 8, False)), op('o1'), D, dict(a='cbret', id='7', out=['ok', 'err:7', 'ok'][v]), dict(a='cbret', id='8'),
+                                                        dict(a='probe', kind='send'), D, peer(R(1)), D])
         add('eof-callback-%d' % v, {'callback': True}, [peer(('call', 7, False)), D, dict(a='peerclose'), D, dict(a='close'), D, dict(a='cbret', id='7'), D])
         add('close-callback-%d' % v, {'callback': True, 'recvUnblocks': e}, [op('o1'), peer(('call', 7, False)), D, dict(a='close'), D, dict(a='peerclose'), D, dict(a='cbret', id='7'), D])
         add('close-twice-%d' % v, {'callback': True}, [peer(('call', 7, False)), D, dict(a='recverr'), D, dict(a='close'), D, dict(a='cbret', id='7'), D])
@@ -139,7 +144,7 @@ FAMILY = {
   'C05': (['cli_c05u'], ['cli_c05u', 'cli_c05m', 'cli_c05', 'cli_c04s', 'cli_live'], ['cli_c05', 'cli_c05u', 'cli_c05m', 'cli_c04s'], 40),
 }
 
-def gen_scenarios(prop, tier, seed, nsim):
+def gen_scenarios(prop, tier, seed, nsim, probes=False):
     rng = random.Random(seed * 7919 + zlib.crc32(prop.encode()) % 1000)
     _, _, simcfgs, depth = FAMILY[prop]
     scs = []
@@ -150,7 +155,7 @@ def gen_scenarios(prop, tier, seed, nsim):
             steer = (bi % 4 != 3)
             scs.append(convert(beh, rng, '%s-%s-%d%s' % (prop, cfg, bi, '' if steer else '-r'), ops, dict(opts), steer=steer))
     for k in range(2 if tier == 'quick' else 6):
-        for d in directed(rng):
+        for d in directed(rng, probes):
             d = dict(d); d['name'] += '-s%d' % k; d['seed'] = rng.randrange(1 << 30)
             scs.append(d)
     return scs
